@@ -1,7 +1,7 @@
 (* model side of the replysites engine (property C10); mode from argv[1]:
      model : case line -> result line in the harness' format
      spec  : case line | c-result  -> "ok" | "bad" | "pre"   (boolean spec checker on the C observation)
-   cases:  c1 <function> <param> <element>...    element = 'L' bytes | 'H' <class letter> raw bytes
+   cases:  c1 <function> <param> <element>...    element = 'L' prefix of the literal | 'H' <class letter> raw bytes
            c2 <text of control file nomail>
            c3 <function answering with a fixed literal> *)
 open M
@@ -38,9 +38,11 @@ let model fs = match fs with
 let file_line_ok raw = List.for_all (fun x -> x <> 0 && x <> 10 && x <> 35) (ints_of_hex raw) && raw <> "-"
 
 let spec fs obs = match fs, obs with
+  | _, ["OK"] -> "pre"        (* the call site did not send anything: no reply to judge (a disagreement with the model is reported separately) *)
   | "c1" :: func :: _ :: els, _ ->
       let es = List.map parse_elem els in
       if not (case_pre es) then "pre"
+      else if site_model (bytes_of_hex func) es = NoShape then "pre"      (* no generated template has the shape the case names *)
       else (match obs with
             | "OK" :: lines -> if spec_ok_site (bytes_of_hex func) es (List.map bytes_of_hex lines) then "ok" else "bad"
             | _ -> "bad")
